@@ -14,6 +14,22 @@ PROPS = {
         "design_ref": "§6 C14",
         "technique": "Lean 4 proof: parser ↔ inductive RFC 1035 §4.1.4 relation (sound+complete, no panic, termination); model tied to src/name/wire.rs by differential correspondence incl. exhaustive ≤5-octet buffers",
     },
+    "C29": {
+        "groups": ["pool"],
+        "harness_features": ["pool"],
+        "design_ref": "§6 C29",
+        "technique": "Lean 4 proof: src/thread.rs as a nondeterministic transition system at lock granularity (2 mutexes, 3 condvars with waiter sets / nondeterministic notify_one / spurious wake-ups / timeouts firing at any moment, per-thread program counters for arbitrarily many threads, tasks tracked by id); inductive invariants over ALL reachable states: available = registered workers, every queued task covered by an awake registered worker (the invariant D11 broke; pre-fix relation proved to strand a task), thread_count = live group threads, mutual exclusion + lock order group→pool, each task in exactly one place and started at most once, thread_count = 0 ⇒ queue empty ∧ every accepted task done. Tied to the code by trace validation: the UNMODIFIED src/thread.rs (imports rewritten to a shim) runs under the shuttle scheduler (random, PCT, bounded DFS; timeouts fire at every scheduling point) and every logged execution must be a path of the model",
+        "level_text": "Theorems about a Lean 4 model of ThreadGroup/ThreadPool for all interleavings and any number of threads and tasks (inductive invariants; no bounded exploration is presented as proof). Partial with respect to the real runtime: std::sync::Mutex/Condvar semantics, OS scheduling and real time are assumptions of the model; the model is tied to the current source on every run by executing the unmodified src/thread.rs under a controlled scheduler and validating each execution's lock-granularity log (with snapshots of the private records) as a path of the model, and by checking the property's end conditions on each execution. Deadlock-freedom is proved at the level of the mutexes (lock order, mutual exclusion) and of the wake-up protocol for queued tasks; full progress for all condition-variable waits is not yet a theorem (checked by the scheduler's deadlock detection on every explored execution).",
+        "assumptions": [
+            "std::sync::Mutex: mutual exclusion, no fairness assumed; Condvar: Mesa semantics, waiter sets, notify_one wakes exactly one waiter if there is one, spurious wake-ups possible, a timed-out waiter has left the waiter set before it re-acquires the mutex; timeouts eventually fire",
+            "submitters, shutters and awaiters are threads outside the group; tasks terminate, do not panic and do not call into the pool; one pool per group; thread creation may fail (modelled) except during start_pool",
+            "ThreadPool::shut_down is called at most once and not after/concurrently with ThreadGroup::shut_down (otherwise Slab::remove panics while the group mutex is held — observation outside this property, see report)",
+            "trace validation runs the copied source under shuttle 0.9.3 with a condvar/Instant shim of the harness (harness/src/pool_shim.rs): real Condvar/OS timing is not exercised",
+        ],
+        "evidence_notes": [
+            "each case is one execution of the real thread.rs under a recorded schedule (scenario + scheduler seed); impl column = re-execution reproduces the trace; model column = trace is a path of QV.Pool.next with matching record snapshots, notify calls and call results; spec column = end conditions of the property on the trace",
+        ],
+    },
     "C32": {
         "groups": ["snapshot"],
         "design_ref": "§6 C32",
